@@ -1077,7 +1077,7 @@ def c05(ctx):
         raise core.Inconclusive("interpreter self-test failed: " + st.stdout.decode() + st.stderr.decode()[-800:])
     ctx.assumptions.append("interpreters: " + st.stdout.decode().strip())
     # ---- monitor 1: portable C backend, natively, on every build
-    NR = ctx.q(40, 5000)
+    NR = ctx.q(40, 20000)
     builds = build_set(ctx, ctx.q(["prod", "gcc-O0", "gcc-O2", "clang-O3", "asan-gcc"], ["prod"] + MATRIX + ["asan-gcc", "asan-clang"]))
     if not ctx.replay or (ctx.replay.get("build") or "").split("/")[0] not in EMU_TARGETS + ["llvm"]:
         run_harness_on(ctx, "h_perm.c", builds, ["--p1", NR], ctx.q(2, 16))
@@ -1135,7 +1135,7 @@ def c05(ctx):
                 "(24 .S files, the Xtensa files under both ABIs) preprocessed with the macro set that selects them and executed instruction by instruction in "
                 "interpreters with monitors for result == bit-serial spec, write set, read set, alignment, callee-saved registers, stack pointer, return address, "
                 "encodability (Thumb-1, RV32E register file), data-independent instruction trace per round count. quick: all structured inputs at 3 rounds + 6 random "
-                "inputs for each of {1,2,3,5,8,9,10,20,24} rounds; thorough: all structured inputs and 300 random ones for every round count 1..24. For ARM/Thumb/RISC-V "
+                "inputs for each of {1,2,3,5,8,9,10,20,24} rounds; thorough: all structured inputs and 1200 random ones for every round count 1..24. For ARM/Thumb/RISC-V "
                 "the files are also assembled with LLVM 14 and LLVM's disassembly is executed under the same monitors (independent decode); AVR is assemble-only. "
                 "Generated files: the 3 generator directories are rebuilt with their own Makefiles (plain and ASan/UBSan) and the 21 outputs compared byte for byte. "
                 "class = (program, rounds, input family, input index) | native (key size, rounds, input) | generator rule.")
